@@ -109,6 +109,7 @@ type caseData struct {
 	events             []PEvent
 	closed             []bool
 	conc, serial       [][]res3
+	optys              [][]int
 	finalC, finalS     int64
 	used, builds       []int
 	prewarm            []int
@@ -120,12 +121,12 @@ func (c caseData) term(part int) string {
 	if part > 0 {
 		// parts 1-3 judge race categories / the hang flag only: the results, the trace and the
 		// schedule are carried by part 0
-		c.conc, c.serial, c.events, c.closed, c.sched = nil, nil, nil, nil, nil
+		c.conc, c.serial, c.events, c.closed, c.sched, c.optys = nil, nil, nil, nil, nil, nil
 	}
 	return lib.App("mk_case", lib.Nat(part), lib.Nat(c.kind), lib.Bool(c.valid),
 		gCfg(c.cfg), gProgs(c.progs), lib.Bool(c.warm), lib.Bool(c.searched), gNats(c.sched),
 		lib.ListOf(c.events, gEvent), lib.ListOf(c.closed, lib.Bool),
-		gResults(c.conc), gResults(c.serial), lib.Z(c.finalC), lib.Z(c.finalS),
+		gResults(c.conc), gResults(c.serial), gProgs(c.optys), lib.Z(c.finalC), lib.Z(c.finalS),
 		gNats(c.used), gNats(c.prewarm), gNats(c.builds), lib.Z(c.bad), lib.ListOf(c.races, gRace))
 }
 
@@ -211,7 +212,7 @@ func emit(out *lib.Out, spec RoundSpec, obs RoundObs) {
 			var sched []int
 			found, exhausted := false, true
 			t0 := time.Now()
-			if !anyOpen && searchSpent < 30*time.Second {
+			if !anyOpen && searchSpent < 20*time.Second {
 				sched, found, exhausted, _ = findWitness2(c.cfg, c.progs, c.warm, po.Events, budget)
 			}
 			searchSpent += time.Since(t0)
@@ -266,6 +267,15 @@ func emit(out *lib.Out, spec RoundSpec, obs RoundObs) {
 		for _, p := range d.Programs {
 			walk(p)
 			c.progs = append(c.progs, nil)
+			// the model type of every operation (a transaction block: none, its error is the block's)
+			tys := make([]int, len(p))
+			for i, o := range p {
+				tys[i] = len(d.Types)
+				if di, ok := denseIdx[o.T]; ok && o.Kind != "tx" {
+					tys[i] = di
+				}
+			}
+			c.optys = append(c.optys, tys)
 		}
 		for t := range usedSet {
 			c.used = append(c.used, t)
